@@ -75,3 +75,63 @@ def whole_defs_of_return(body):
             else:
                 out.append((bi, si, {("other", bi, si, ())}, d))
     return out
+
+
+def check_reduce_lookahead(rep, f, prefix=""):
+    """Every reduction is given, as `lookahead start`, the start (.0) of the token currently in the
+    lookahead slot, or None at end of input -- never any other location (an empty production takes its
+    span from it, C06; error nodes are ordered with respect to the following token, C16)."""
+    from . import symex
+    sm = SM(f)
+    n = 0
+    for name in ("parse", "parse_eof", "error_recovery", "reduce"):
+        b = sm.b[name]
+        for bi, t in b.calls():
+            c = callee_of(t) or ""
+            d = callee_decl(t) or ""
+            if not (c == P + "reduce" or d == PD + "reduce"):
+                continue
+            n += 1
+            arg = t["args"][2]
+            o = origins(b, arg, transparent=lambda cc: None)
+            verdict, detail = False, sorted(map(str, o))[:4]
+            kinds = set()
+            for x in o:
+                if x[0] == "agg":
+                    r = b.blocks[x[1]]["s"][x[2]]["r"]
+                    if r.get("variant") == "None":
+                        kinds.add("None")
+                    elif r.get("variant") == "Some":
+                        io = origins(b, r["ops"][0])
+                        good = bool(io) and all((y[0] == "call" and (y[1].endswith("::next_token") or y[1].endswith("::error_recovery")) and y[3] and y[3][-1] == "0")
+                                                or (y[0] == "arg" and y[2] and y[2][-1] == "0" and "last_location" not in y[2]) for y in io)
+                        kinds.add("Some(lookahead.0)" if good else "Some(%s)" % sorted(map(str, io))[:2])
+                elif x[0] == "arg" and not x[2] and name == "reduce":
+                    kinds.add("pass-through")
+                elif x[0] == "call" and x[1] == "std::option::Option::<T>::map":
+                    mt = b.blocks[x[2]]["t"]
+                    src = origins(b, mt["args"][0], transparent=lambda cc: [0] if cc and cc.endswith("Option::<T>::as_ref") else None)
+                    from_la = bool(src) and all(y[0] == "arg" and y[1] == 2 and not y[2] for y in src)
+                    clo = origins(b, mt["args"][1])
+                    body_ok = False
+                    for y in clo:
+                        if y[0] == "agg":
+                            cr = b.blocks[y[1]]["s"][y[2]]["r"]
+                            cb = f.body(cr.get("closure", ""))
+                            if cb is not None:
+                                rr = symex.term_eval(f, cb, inline=lambda p: False)
+                                body_ok = len(rr) == 1 and rr[0][0] == ("proj", ("sym", "arg2"), ("field", "0"))
+                        if y[0] == "const" and "closure" in y[1]:
+                            import json as _j
+                            cb = f.body(_j.loads(y[1]).get("closure", ""))
+                            if cb is not None:
+                                rr = symex.term_eval(f, cb, inline=lambda p: False)
+                                body_ok = len(rr) == 1 and rr[0][0] == ("proj", ("sym", "arg2"), ("field", "0"))
+                    kinds.add("opt_lookahead.map(|l| &l.0)" if from_la and body_ok else "map(?)")
+                else:
+                    kinds.add(str(x)[:60])
+            good = kinds and kinds <= {"None", "Some(lookahead.0)", "pass-through", "opt_lookahead.map(|l| &l.0)"}
+            rep.ob(prefix + "reduce.lookahead-start-is-start-of-lookahead", "%s bb%d reduce(.., %s)" % (name, bi, sorted(kinds)), bool(good),
+                   "a reduction is told that the lookahead starts at %s: empty productions reduced here (and error nodes around them) get a location that "
+                   "is not the start of the next token" % sorted(kinds), key="reduce-lookahead-start:%s" % name, file=b.relfile(), line=t["ln"], fn=b.path)
+    rep.floor(prefix + "reduce call sites in the driver", n, 4)
